@@ -224,6 +224,13 @@ pub fn range_band(sink: &mut Sink, cfg: &str, r: &mut Rng, thorough: bool) {
         emit(sink, cfg, doc.as_bytes(), r, "range-band");
         if i % 6 != 0 && r.chance(1, 4) { emit(sink, cfg, l.as_bytes(), r, "range-band"); }
     }
+    // the other end of the range: exponents below -308 (f64_from_parts leaves the POW10 table), subnormals, underflow to zero
+    for (i, l) in ["268e-309", "-268e-309", "1e-310", "2.5e-320", "123456789e-325", "5e-324", "-1.5e-315", "2.2250738585072014e-308", "1e-400", "-1e-400",
+                   "17976931348623157e-340", "0.000001e-305", "12345678901234567890e-330", "2.4703282292062327e-324", "2.4703282292062329e-324",
+                   "9e-617", "1e-616", "7e-310", "0.5e-308", "49e-325"].iter().enumerate() {
+        let doc = match i % 4 { 0 => l.to_string(), 1 => format!("[{}]", l), 2 => format!("{{\"a\":[0,{}]}}", l), _ => format!("[1e-5,{} ,1]", l) };
+        emit(sink, cfg, doc.as_bytes(), r, "range-tiny");
+    }
 }
 
 pub fn run(sink: &mut Sink, prop: &str, thorough: bool, seed: u64) {
